@@ -476,11 +476,14 @@ impl OutputFormat for IcyDraw {
                                                             o += 2;
                                                             (ch, fg, bg, font_page)
                                                         };
+                                                        let Some(ch) = char::from_u32(ch) else {
+                                                            return Err(anyhow::anyhow!("invalid character {ch:#x}"));
+                                                        };
 
                                                         layer.set_char(
                                                             (x, y),
                                                             crate::AttributedChar {
-                                                                ch: unsafe { char::from_u32_unchecked(ch) },
+                                                                ch,
                                                                 attribute: crate::TextAttribute {
                                                                     foreground_color: fg,
                                                                     background_color: bg,
@@ -642,11 +645,14 @@ impl OutputFormat for IcyDraw {
                                                     o += 2;
                                                     (ch, fg, bg, font_page)
                                                 };
+                                                let Some(ch) = char::from_u32(ch) else {
+                                                    return Err(anyhow::anyhow!("invalid character {ch:#x}"));
+                                                };
 
                                                 layer.set_char(
                                                     (x, y),
                                                     crate::AttributedChar {
-                                                        ch: unsafe { char::from_u32_unchecked(ch) },
+                                                        ch,
                                                         attribute: crate::TextAttribute {
                                                             foreground_color: fg,
                                                             background_color: bg,
